@@ -283,6 +283,7 @@ fn sde(w: &[&str]) -> String {
         "arr2" => go!([u8; 2], |v: [u8; 2]| format!("[{},{}]", v[0], v[1])),
         "arr2tup" => go!([(u8, u8); 2], |v: [(u8, u8); 2]| format!("[[{},{}],[{},{}]]", v[0].0, v[0].1, v[1].0, v[1].1)),
         "any" => go!(AnyShape, |v: AnyShape| v.0),
+        "ignored" => go!(serde::de::IgnoredAny, |_| "()".to_string()),
         "opt_tup" => go!(Option<(u8, u8)>, |v: Option<(u8, u8)>| match v { None => "N".to_string(), Some(x) => format!("S([{},{}])", x.0, x.1) }),
         _ => "bad-op".into()
     }
@@ -361,8 +362,39 @@ fn sser(w: &[&str]) -> String {
     }
 }
 
+/// writes one byte and then gives up with a message error
+#[cfg(feature = "alloc")]
+struct GivesUp;
+#[cfg(feature = "alloc")]
+impl<C> minicbor::Encode<C> for GivesUp {
+    fn encode<W: minicbor::encode::Write>(&self, e: &mut Encoder<W>, _: &mut C) -> Result<(), minicbor::encode::Error<W::Error>> {
+        e.u8(7)?;
+        Err(minicbor::encode::Error::message("giving up"))
+    }
+}
+
+/// `tovecs <call>…`: successive `minicbor::to_vec` calls on this thread: `f` (fails after writing a byte), `u8:<n>`, `str:<hex>`;
+/// the results joined by `,` (exists with alloc only)
+#[cfg(feature = "alloc")]
+fn tovecs(w: &[&str]) -> String {
+    let mut out = Vec::new();
+    for c in w {
+        let (m, a) = match c.split_once(':') { Some((m, a)) => (m, a), None => (*c, "") };
+        out.push(match m {
+            "f" => match minicbor::to_vec((2u8, GivesUp)) { Ok(b) => hex(&b), Err(_) => "err".into() },
+            "u8" => match a.parse::<u8>() { Ok(n) => minicbor::to_vec(n).map(|b| hex(&b)).unwrap_or("err".into()), Err(_) => return "bad-op".into() },
+            "str" => match unhex(a).and_then(|b| String::from_utf8(b).ok()) { Some(s) => minicbor::to_vec(s.as_str()).map(|b| hex(&b)).unwrap_or("err".into()), None => return "bad-op".into() },
+            _ => return "bad-op".into()
+        });
+    }
+    if out.is_empty() { "-".into() } else { out.join(",") }
+}
+#[cfg(not(feature = "alloc"))]
+fn tovecs(_: &[&str]) -> String { "bad-op".into() }
+
 fn dispatch(w: &[&str]) -> String {
     match w[0] {
+        "tovecs" => tovecs(&w[1..]),
         "sde" => sde(&w[1..]),
         "sser" => sser(&w[1..]),
         "enc" => enc(&w[1..]),
